@@ -1193,6 +1193,7 @@ func runC08(ctx *Ctx) {
 	runExhaustive(ctx)
 	runC08Lend(ctx)
 	runC08Copy(ctx)
+	runC08LongList(ctx)
 }
 
 func (mc *machine) step(i int, op Op) error {
@@ -1215,6 +1216,9 @@ func checkC08(ctx *Ctx, c *Case) error {
 	}
 	if c.Sub == "copydesc" {
 		return checkC08Copy(ctx, c)
+	}
+	if c.Sub == "longlist" {
+		return checkC08LongList(ctx, c)
 	}
 	t, err := mustType(c.Type)
 	if err != nil {
